@@ -22,6 +22,7 @@
 
 #define ALN_WRAP_IMPORT
 #include "aln_wrap.h"
+#include "kalign_verif.h"
 
 
 int kalign(char **seq, int *len, int numseq,int n_threads, int type, float gpo, float gpe, float tgpe, char ***aligned, int *out_aln_len)
@@ -113,9 +114,11 @@ int kalign_run(struct msa *msa, int n_threads, int type, float gpo, float gpe, f
         }
         START_TIMER(t1);
 
+        KALIGN_VERIF_EVENT(KV_RUN_BEGIN, msa, 0, 0, 0);
         RUN(create_msa_tree(msa, ap, tasks));
         /* Hurrah we have aligned sequences  */
         msa->aligned = ALN_STATUS_ALIGNED;
+        KALIGN_VERIF_EVENT(KV_RUN_END, msa, 0, 0, 0);
 
         RUN(finalise_alignment(msa));
 
